@@ -640,6 +640,54 @@ func c05InputsSecrets(r *vReport, idx *int64) {
 	}
 }
 
+// c05ExprIDs: a step id given (wholly or partly) by an expression: the ids of the job are then not
+// known statically and references to steps after that step are not reported; before it the scope
+// is still exact, and a reference inside the id itself is resolved like any other.
+func c05ExprIDs(r *vReport, idx *int64) {
+	ids := []string{"${{ matrix.os }}", "build-${{ matrix.os }}", "${{ matrix.os }}-build", "${{ matrix.os }}-${{ matrix.os }}", "' ${{ matrix.os }} '", "a${{ matrix.os }}b${{ matrix.os }}c"}
+	for _, id := range ids {
+		for _, inner := range []bool{false, true} {
+			*idx++
+			if !r.Mine(*idx) {
+				continue
+			}
+			var b strings.Builder
+			line := 1
+			w := func(s string) { b.WriteString(s + "\n"); line++ }
+			var refs []c05Ref
+			w("on: push")
+			w("jobs:")
+			w("  j:")
+			w("    runs-on: ubuntu-latest")
+			w("    strategy:")
+			w("      matrix:")
+			w("        os: [a, b]")
+			w("    outputs:")
+			refs = append(refs, c05Ref{line, "anything", true, "job output after an expression id"})
+			w("      o: ${{ steps.Anything.outputs.x }}")
+			w("    steps:")
+			w("      - id: s0")
+			w("        run: echo")
+			refs = append(refs, c05Ref{line, "early", false, "step before the expression id: undefined id"})
+			w("      - run: echo ${{ steps.Early.outputs.x }}")
+			refs = append(refs, c05Ref{line, "s0", true, "step before the expression id: earlier id"})
+			w("      - run: echo ${{ steps.S0.outputs.x }}")
+			text := id
+			if inner {
+				text = strings.Replace(id, "${{ matrix.os }}", "${{ steps.Inner.outputs.x }}", 1)
+				refs = append(refs, c05Ref{line, "inner", false, "reference inside an expression id"})
+			}
+			w("      - id: " + text)
+			w("        run: echo")
+			refs = append(refs, c05Ref{line, "later", true, "step after an expression id: unknown id"})
+			w("      - run: echo ${{ steps.Later.outputs.x }}")
+			refs = append(refs, c05Ref{line, "s0", true, "step after an expression id: earlier literal id"})
+			w("      - run: echo ${{ steps.S0.conclusion }} ${{ steps.Whatever.outcome }}")
+			c05Judge(r, "expression-step-id", fmt.Sprintf("id=%q reference-inside=%v", id, inner), b.String(), refs, nil)
+		}
+	}
+}
+
 func TestVerifC05(t *testing.T) {
 	r := vNewReport("C05")
 	defer r.Write(t)
@@ -650,7 +698,7 @@ func TestVerifC05(t *testing.T) {
 	r.Bounds["steps_per_job"] = maxSteps
 	r.Bounds["jobs_steps_family"] = 2
 	r.Bounds["jobs_needs_family"] = 3
-	r.Extra["rule"] = "steps: jobs<=2 x steps<=N x every subset of steps carrying an id x reference in 8 step fields of every step and in job outputs / environment.url x 4 expression shapes (plain; condition of a && b || c; (x || a) && b; !(x && true) && y) x target (each id of either job | undefined); needs: 3 jobs x all 64 edge sets x all 6 file orders x needed job is a step job or a reusable-workflow call, reference to .result and to declared / undeclared outputs from every job; matrix: 10 definitions x {lower-case, mixed-case keys} (rows, include same/new/only, exclude, nested values, row / include / include element / whole matrix by expression) x 7 positions x defined/undefined keys; jobs with a matrix (literal / include-only / expression, step job or reusable-workflow call) next to jobs without that key in both file orders; inputs/secrets/jobs: call x dispatch x declared secrets. oracle = scope rule computed by the generator. class = (family, reference kind, in scope?); non-trivial = out of scope"
+	r.Extra["rule"] = "steps: jobs<=2 x steps<=N x every subset of steps carrying an id x reference in 8 step fields of every step and in job outputs / environment.url x 4 expression shapes (plain; condition of a && b || c; (x || a) && b; !(x && true) && y) x target (each id of either job | undefined); needs: 3 jobs x all 64 edge sets x all 6 file orders x needed job is a step job or a reusable-workflow call, reference to .result and to declared / undeclared outputs from every job; matrix: 10 definitions x {lower-case, mixed-case keys} (rows, include same/new/only, exclude, nested values, row / include / include element / whole matrix by expression) x 7 positions x defined/undefined keys; jobs with a matrix (literal / include-only / expression, step job or reusable-workflow call) next to jobs without that key in both file orders; inputs/secrets/jobs: call x dispatch x declared secrets; step ids given wholly or partly by an expression (6 spellings, reference before / inside / after). oracle = scope rule computed by the generator. class = (family, reference kind, in scope?); non-trivial = out of scope"
 	r.Extra["assumptions"] = []string{"step ids, job ids and keys are referenced in a different letter case than defined (case-insensitivity is part of resolution)", "for cyclic needs graphs only the needs.* verdicts are compared"}
 	if raw := vReplayInput(); raw != nil {
 		var rp struct {
@@ -684,6 +732,7 @@ func TestVerifC05(t *testing.T) {
 	c05MatrixAcrossJobs(r, &idx)
 	c05Positions(r, &idx)
 	c05InputsSecrets(r, &idx)
+	c05ExprIDs(r, &idx)
 }
 
 // c05Positions: at every non-exempt scalar position of the seeds and of their sibling variations
